@@ -1,25 +1,62 @@
 # edited by hand; consumed by tools_mkmanifest.py
 _NOTE = ("Trusted: CPython, z3 5.1, CrossHair's models of str/int/list, the harness-side stubs listed per obligation in the "
-         "evidence (cell_len memo pass-through, real-valued floats for int*int/int quotients, lru_cache bypass). "
-         "Claims hold only inside the bounds stated per obligation.")
-CLAIMED["C13"] = (
- "bounded symbolic execution of rich.cells / rich.segment with z3 (symx over all code points; CrossHair over symbolic strings)",
- "Every code point 0..0x10FFFF is decided symbolically against a linear scan of the width table; set_cell_size / chop_cells / "
- "segment shaping are decided for all strings over a mixed-width alphabet up to a stated length and all sizes in range.",
- _NOTE, "DESIGN.md 5 C13")
-CLAIMED["C06"] = (
- "bounded symbolic execution of Style.__add__/__eq__/__hash__ over all 13-bit attribute masks (symx, z3 BitVec + uninterpreted hash); CrossHair-enumerated parse/str round trips",
- "Associativity, identity, right bias and hash consistency of every construction route are decided for ALL attribute masks and all "
- "None/token combinations of colour, bgcolor, link; color(n) and rgb(r,g,b) parsing for all n, r, g, b symbolically; str/normalize "
- "round trips for every style with at most two attributes and 10 colour spellings.",
+         "evidence (cell_len memo pass-through, lru_cache removal, real-valued floats for int*int/int quotients, opaque style tags). "
+         "Every claim holds only inside the bounds stated per obligation; inconclusive obligations are reported and never counted.")
+_P = ("solver-driven exhaustive enumeration of a bounded input space by the symx engine (z3 chooses and blocks each value combination; "
+      "the unmodified Rich code runs on it and is compared with an independent reference)")
+CLAIMED["C01"] = ("symbolic execution (symx, z3 Int + exact rationals) of Table._calculate_column_widths/_collapse_widths/ratio_reduce/ratio_distribute with symbolic cell measurements and budget; " + _P + " for rendered trees",
+ "Column-width solver: for all cell measurements <=40 and budgets <=60 (2 and 3 columns, 9 option sets) the widths never exceed the budget. Rendered catalogue of 55 trees: every width from the structural minimum to 60 (thorough 200).",
+ _NOTE, "DESIGN.md 5 C01")
+CLAIMED["C02"] = (_P + " over word triples x separators x span grids x widths x justify x overflow x no_wrap, Text.wrap run natively",
+ "Bounded exhaustive check of Text.wrap: characters kept in order under fold, lines fit, per-character ordered span styles, words split only when too wide.",
+ _NOTE, "DESIGN.md 5 C02")
+CLAIMED["C03"] = (_P + "; emitted stream decoded by an independent SGR/OSC-8 terminal model",
+ "For every colour system and console flag combination, styles with up to one (thorough: two) attributes, 8 colour kinds for fg/bg and a link: the bytes written decode to the segments' characters, attributes, down-converted colours and link, with no leak.",
+ _NOTE, "DESIGN.md 5 C03")
+CLAIMED["C04"] = ("CrossHair symbolic execution of markup.render/escape (regex tokenizer on symbolic strings) against a hand-written scanner; " + _P + " for token documents",
+ "escape round trip and scanner-model agreement for ALL strings up to length 5/4 over the syntax alphabet (symbolic); precedence of later-opened tags over every document of up to 5 (thorough 6) tokens.",
+ _NOTE, "DESIGN.md 5 C04")
+CLAIMED["C05"] = (_P + ": one inductive step per Text operation from a solver-chosen pre-state against a list-of-(char, tags) reference",
+ "Every editing operation re-establishes len(text)==len(plain) and agreement with the reference from any catalogue pre-state and any argument inside/at/beyond the ends; histories follow by induction.",
+ _NOTE, "DESIGN.md 5 C05")
+CLAIMED["C06"] = ("bounded symbolic execution of Style.__add__/__eq__/__hash__ over all 13-bit attribute masks (symx, z3 BitVec + uninterpreted hash); CrossHair for color(n)/rgb() parsing; solver-enumerated str/parse round trips",
+ "Associativity, identity, right bias and hash consistency of every construction route for ALL attribute masks and all None/token combinations of colour, bgcolor, link; color(n), rgb(r,g,b) for all values; round trips for <=2 attributes x 10 colour spellings; all 256 colour names.",
  _NOTE + " hash() is an uninterpreted function in the symbolic run (S5); counterexamples are replayed with the real hash.", "DESIGN.md 5 C06")
-CLAIMED["C18"] = (
- "symbolic execution of Color.downgrade / Palette.match / get_ansi_codes with z3 (Float64 semantics for truecolor->256, BitVec for the weighted metric)",
- "For all 2^24 colours: conversion to 16-colour palettes is in gamut, idempotent and picks an entry of minimal documented distance; all 256 indexed colours likewise; "
- "SGR parameters for every colour kind. Truecolor->256 with exact IEEE semantics: greys in the quick tier, all 2^24 colours in the thorough tier.",
+CLAIMED["C07"] = ("symbolic execution (symx) of the column-width solver with expand; " + _P + " for box rows and rendered ASCII-box tables",
+ "expand => widths sum exactly to the budget for all measurements/budgets (2,3 columns); every box's border rows have the exact width; rendered tables (<=3 columns, <=3 rows) are rectangles showing every cell character in its own column.",
+ _NOTE, "DESIGN.md 5 C07")
+CLAIMED["C08"] = (_P + " over frame options and widths, rendered natively and compared with the child rendered alone",
+ "Panel/Padding/Align/Rule/Bar/ProgressBar/Columns/Tree: exact rectangles, exact padding, child lines intact, exact rule width, item order, guide prefix, for every option combination and width inside the bounds.",
+ _NOTE, "DESIGN.md 5 C08")
+CLAIMED["C09"] = ("symbolic execution (symx) of Measurement.get/normalize/clamp and Table.__rich_measure__ with arbitrary raw measurements; CrossHair on Text.__rich_measure__ over symbolic strings; " + _P + " for render-at-measure",
+ "0<=min<=max<=width for ANY raw measurement and width<=60; Text minimum/maximum equal widest word/line for all strings up to length 3 (thorough 5); rendering each catalogue tree at its reported min/max never overflows.",
+ _NOTE, "DESIGN.md 5 C09")
+CLAIMED["C10"] = (_P + ": single-threaded Live histories replayed on a VT100-subset screen model; exception injection at every render index / block position",
+ "Reduced claim: every Live history of 2 (thorough 3) operations + stop on a 20x6 terminal leaves exactly the printed lines and the current frame; crash points restore cursor, redirection and hooks. No threads, no histories beyond 3 steps.",
+ _NOTE + " Thread-related clauses are not applicable (see C11).", "DESIGN.md 5 C10")
+CLAIMED["C12"] = ("symbolic execution (symx, z3 Int + exact rationals, symbolic clock) of the real Progress/Task methods over solver-enumerated operation sequences",
+ "Sequential histories only: every 2 (thorough 3) operation history over two tasks with symbolic amounts, totals and clock steps satisfies the accounting, percentage, finished/finish-time, speed and time-remaining clauses; track() for lengths 0..4.",
+ _NOTE + " Multi-thread clauses of the statement are outside the claim (C11).", "DESIGN.md 5 C12")
+CLAIMED["C13"] = ("bounded symbolic execution of rich.cells / rich.segment with z3 (symx over all code points; CrossHair over symbolic strings)",
+ "Every code point 0..0x10FFFF decided symbolically against a linear scan of the width table; set_cell_size / chop_cells / segment shaping for all strings over a mixed-width alphabet up to a stated length and all sizes; cache transparency as an inductive step and with the real caches.",
+ _NOTE, "DESIGN.md 5 C13")
+CLAIMED["C14"] = ("CrossHair symbolic execution of Color.parse / markup.render / AnsiDecoder.decode with declared raises-sets over symbolic strings; " + _P + " for style token sequences, printed strings and catalogue renders",
+ "Only documented exceptions for all template fillers up to the stated lengths; no exception from rendering/measuring/printing any catalogue tree at any width 1..40 (thorough 200).",
+ _NOTE, "DESIGN.md 5 C14")
+CLAIMED["C15"] = (_P + " over segment lists and API histories on a recording console; exports compared via the independent terminal model",
+ "All 2 (thorough 3) segment lists / operation histories: export_text, export_html (both modes), styled export and capture agree with the file's visible text; clear semantics.",
+ _NOTE, "DESIGN.md 5 C15")
+CLAIMED["C16"] = (_P + " over a value catalogue x max_width x indent x expand_all x max_length x max_string",
+ "For 61 catalogue values: eval round trip, repr equality when it fits, token order at every width, layout rules, exact abbreviation counts, cycle markers, for every width 1..40 and option value in the bounds.",
+ _NOTE, "DESIGN.md 5 C16")
+CLAIMED["C18"] = ("symbolic execution of Color.downgrade / Palette.match / get_ansi_codes with z3 (Float64 semantics for truecolor->256, BitVec for the weighted metric)",
+ "For all 2^24 colours: conversion to 16-colour palettes is in gamut, idempotent, order-independent and minimal under the documented metric; all 256 indexed colours; SGR parameters for every colour kind. Truecolor->256 with exact IEEE semantics: greys (quick), all 2^24 colours (thorough).",
  _NOTE + " L2: sqrt replaced by an order-isomorphic stub.", "DESIGN.md 5 C18")
-_PENDING = "check not built yet in this session (planned, DESIGN.md 5); not claimed until its obligations run"
-for _p in ["C01","C02","C03","C04","C05","C07","C08","C09","C10","C12","C14","C15","C16","C19","C20"]:
-    NA[_p] = _PENDING
+CLAIMED["C19"] = (_P + " for encode->decode round trips and FileProxy write/flush sequences; CrossHair for the decoder's colour arithmetic on symbolic decimal text",
+ "Round trip of every style in the bounds through a truecolor console and AnsiDecoder; 38;5;n / 48;5;n for all n and 38;2;r;g;b one channel at a time symbolically; every 3 (thorough 4) token stream cut at two arbitrary offsets through FileProxy.",
+ _NOTE, "DESIGN.md 5 C19")
+CLAIMED["C20"] = ("symbolic execution (symx) of ThemeStack.push_theme/pop_theme as an inductive step with symbolic presence flags and opaque values; " + _P + " for Console histories and config round trips",
+ "Any stack of 1-2 entries x any pushed theme over 3 names x inherit: lookups after push/pop as specified (induction gives any history); real Console histories of 2 (thorough 3) push/pop/use_theme operations incl. exceptions; config round trip.",
+ _NOTE, "DESIGN.md 5 C20")
 NA["C11"] = "quantifies over thread schedules of the real console/live code; no engine here can make the schedule a solver variable (DESIGN.md 6)"
 NA["C17"] = "decided by third-party Pygments lexers (C regex engine) and linecache; cannot be executed symbolically (DESIGN.md 6)"
